@@ -1,5 +1,6 @@
 """C07 -- OpenADAS provider policy and rate classes (DESIGN section 5, C07)."""
 import ast
+from fractions import Fraction
 import re
 
 from ..program import Program, dotted, norm
@@ -290,6 +291,26 @@ def _accessors(run, prog, oa, getters):
                         run.fail('C07-R3', K + mname + '|wavelength-species', *where(wc),
                                  what="%s requests the wavelength for '%s', which is isotope-stripped: the photon energy hc/lambda "
                                       "is that of the element, not of the requested isotope" % (mname, txt))
+                    # ... of the emitting ion: after charge exchange the receiver has one charge less; beam emission is from the neutral
+                    # beam atom; excitation / recombination lines belong to the charge state the coefficient is requested for
+                    if len(wc.args) >= 3:
+                        run.subject('C07-R3')
+                        ctxt = norm(wc.args[1]).replace(' ', '')
+                        mp = params_of(m)
+                        chp = [p_ for p_ in mp if 'charge' in p_]
+                        if mname in ('beam_cx_pec', 'thermal_cx_pec'):
+                            wantc = [p_ + '-1' for p_ in chp if 'receiver' in p_]
+                        elif mname == 'beam_emission_pec':
+                            wantc = ['0']
+                        else:
+                            wantc = [p_ for p_ in chp if p_ == 'charge'] or chp[:1]
+                        ttxt = norm(wc.args[2])
+                        if ctxt in wantc and ttxt == 'transition':
+                            run.ok('C07-R3', '%s: wavelength of the emitting ion' % mname, 'charge %s' % ctxt, sample=False)
+                        elif wantc:
+                            run.fail('C07-R3', K + mname + '|wavelength-charge', *where(wc),
+                                     what="%s requests the wavelength for charge '%s', transition '%s'; the line is emitted by charge state %s "
+                                          "(the photon energy hc/lambda converts the coefficient)" % (mname, norm(wc.args[1]), ttxt, wantc[0]))
     # wavelength(): strips only as documented fallback
     w = oa.methods.get('wavelength')
     if w is None:
@@ -683,6 +704,84 @@ def _photon_conversion(run, prog):
                      '(x * wavelength / conversion_factor)' % vi.key()[:60])
         else:
             run.ok('C07-R10', 'PhotonToJ.to / inv', 'x * F / w and x * w / F')
+    # the other conversions the rate classes and the provider use: value of every factor, and to / inv of the two base forms
+    consts2 = dict(consts)
+    for local, qual in cm.imports.items():
+        if qual in ('scipy.constants.atomic_mass', 'scipy.constants.m_u', 'scipy.constants.u'):
+            consts2[local] = L('m_u')
+        elif qual in ('scipy.constants.elementary_charge', 'scipy.constants.e'):
+            consts2[local] = L('e')
+
+    class E2(SymEval):
+        def name(self, n):
+            if n.id in consts2:
+                return consts2[n.id]
+            return super().name(n)
+    FACT = {'EvAmuToMS': C(2) * L('e') / L('m_u'), 'AmuToKg': L('m_u'), 'EvToJ': L('e'), 'Cm3ToM3': C(Fraction(1, 10 ** 6)), 'PerCm3ToPerM3': C(10 ** 6),
+            'AngstromToNm': C(Fraction(1, 10))}
+    for cname, wantf in FACT.items():
+        cc = cm.classes.get(cname)
+        if cc is None:
+            continue
+        run.subject('C07-R10')
+        got = None
+        for st in cc.body:
+            if isinstance(st, ast.Assign) and norm(st.targets[0]) == 'conversion_factor':
+                try:
+                    got = E2().ev(st.value)
+                except Exception:
+                    got = None
+        ok_ = False
+        if got is not None:
+            try:
+                ok_ = got.eq(wantf) or (got.is_const() and wantf.is_const() and abs(float(got.const_value()) / float(wantf.const_value()) - 1) < 1e-12)
+            except Exception:
+                ok_ = False
+        if ok_:
+            run.ok('C07-R10', cname + '.conversion_factor', wantf.key(), sample=False)
+        elif got is None:
+            run.fail('C07-R10', K.replace('PhotonToJ', cname) + 'factor', rel, cc.lineno, '%s has no conversion_factor' % cname)
+        else:
+            run.fail('C07-R10', K.replace('PhotonToJ', cname) + 'factor', rel, cc.lineno, '%s.conversion_factor is %s; documented: %s' % (cname, got.key()[:60], wantf.key()))
+    for cname, wt, wi in (('EvAmuToMS', 'sqrt', 'square'), ('BaseFactorConversion', 'mul', 'div')):
+        cc = cm.classes.get(cname)
+        if cc is None:
+            continue
+        fs2 = {f.name: f for f in cc.body if isinstance(f, ast.FunctionDef)}
+        if 'to' not in fs2 or 'inv' not in fs2:
+            continue
+        run.subject('C07-R10')
+
+        class E3(SymEval):
+            def call(self, n):
+                if (dotted(n.func) or '').split('.')[-1] == 'sqrt' and len(n.args) == 1:
+                    return self.sqrt(self.ev(n.args[0]))
+                return super().call(n)
+
+        def val2(f):
+            g = propagate(f)
+            rets = [r for r in ast.walk(g) if isinstance(r, ast.Return) and r.value is not None]
+            if len(rets) != 1:
+                return None
+            try:
+                return E3().ev(rets[0].value)
+            except Exception:
+                return None
+        vt, vi = val2(fs2['to']), val2(fs2['inv'])
+        x1, x2 = L(fs2['to'].args.args[-1].arg), L(fs2['inv'].args.args[-1].arg)
+        if vt is None or vi is None:
+            run.undecided('C07-R10', cname + '.to / inv', 'not in a recognised arithmetic form')
+            continue
+        if wt == 'sqrt':
+            good = vt.eq(E3().sqrt(x1 * F)) and vi.eq(x2 * x2 / F)
+            doc = 'to = sqrt(x F), inv = x^2 / F'
+        else:
+            good = vt.eq(x1 * F) and vi.eq(x2 / F)
+            doc = 'to = x F, inv = x / F'
+        if good:
+            run.ok('C07-R10', cname + '.to / inv', doc, sample=False)
+        else:
+            run.fail('C07-R10', K.replace('PhotonToJ', cname) + 'to-inv', rel, cc.lineno, '%s: to = %s, inv = %s; documented: %s' % (cname, vt.key()[:50], vi.key()[:50], doc))
     run.floor('C07-R10', 2)
 
 
